@@ -28,6 +28,7 @@ EXTRAS = [
     lambda rep, fb, tier: pyrules.rule_py_dispatch(rep),
     lambda rep, fb, tier: pyrules.rule_py_categories(rep),
     lambda rep, fb, tier: pyrules.rule_py_call_shape(rep),
+    lambda rep, fb, tier: pyrules.rule_py_record_field_trim(rep),
     lambda rep, fb, tier: pyrules.rule_py_highlevel_returns(rep),
     lambda rep, fb, tier: __import__("vf.rules.methodrules", fromlist=["x"]).rule_index_content(rep, fb),
     lambda rep, fb, tier: __import__("vf.rules.methodrules", fromlist=["x"]).rule_index_domain(rep, fb),
